@@ -96,7 +96,7 @@ theorem WaitInv.closed (a n0 : Nat) (f0 : FileDesc) : Closed Wf (WaitInv a n0 f0
   pkt := fun s L prio c now _ idx b _ hb h _ _ _ _ _ =>
     h.step (s' := pktStep s prio c.key now idx b) [_] rfl
       (fun _ hw => hw.updOther c.key tickInfo (fun _ => rfl) (held_ne_waiting hb hw) rfl (fun _ hx _ => hx))
-  done := fun s L _ c now _ _ hb h _ _ _ _ _ => by
+  done := fun s L _ c now _ _ hb h _ _ _ => by
     refine h.step [Ev.stop now c.key] (transferDoneFile_log s c.key now) ?_
     intro _ hw
     refine hw.updOther c.key (fun f => transferDoneInfo f now) (fun _ => rfl) (held_ne_waiting hb hw)
@@ -138,6 +138,8 @@ structure WaitsEligible (s0 : State) (a N : Nat) (f0 : FileDesc) : Prop where
   pub : s0.cfg.mode = .full → f0.published = true
   start : ∀ st, f0.info.startTime = some st → st ≤ N
   all : ∀ k g, getF s0.objs k = some g → wantsTick g = false
+  /-- no source fails (buffer sources) -/
+  nofault : FaultFree s0
 
 theorem busy_while_waiting (cfg : Cfg) (tbl : List Nat) (hsorted : (cfg.queues.map (fun x => x.1)).Pairwise (fun a b => a < b))
     (s0 : State) (a N : Nat) (f0 : FileDesc) (he : WaitsEligible s0 a N f0)
@@ -188,6 +190,9 @@ theorem busy_while_waiting (cfg : Cfg) (tbl : List Nat) (hsorted : (cfg.queues.m
       obtain ⟨c, g, _, hg, hb⟩ := idle_waiting cfg tbl ops N tk hsorted hout a f hq hf helig
         (fun hmode => v.pub (he.pub (by rw [← hm.cfg]; exact hmode)))
         (fun st hst => he.start st (by rw [← v.info]; exact hst))
+        (fun k g hg => by
+          obtain ⟨g0, hg0, dg⟩ := hm.bwd k g hg
+          rw [dg.faults]; exact he.nofault k g0 hg0)
         q hq1 (by rw [hq2.1, hp1, v.prio]) 0 q.slots[0] (by simp [hlen])
       rw [hgate c.key g hg] at hb; cases hb
     show (match (read (run (init cfg tbl) ops) N tk).2 with | .none => 0 | _ => 1) +
